@@ -491,7 +491,8 @@ ASSUMPTIONS = ['put_data/get_data/make_data operate on mujoco.MjModel/MjData of 
                'reference is the tree engine, guarded by the model-array skew check',
                'placeholder values in unused contact slots (dist, geom ids) are not part of the make_data/put_data comparison',
                'sub-domains excluded because of reported candidate findings (C44_FINDINGS=1 re-enables): ne/nf/nl after get_data '
-               '(static slot counts), data with an active contact at 0 < dist < margin (dropped by get_data)']
+               '(static slot counts), data with an active contact at 0 < dist < margin (dropped by get_data), data with constraint rows whose '
+               'Jacobian is exactly zero (dropped by get_data), ten_J when a structural entry is exactly zero (values shifted by get_data)']
 
 
 def shard_main(ck, shard, nshards):
@@ -558,6 +559,10 @@ LEVEL_TEXT = '''Generated supported models and state batches: jit, vmap and eage
 compared on every leaf of the returned Data; MjData round trips through put_data/get_data are compared bit-exactly (contacts and
 constraint rows as multisets); make_data is compared with put_data of a fresh MjData; state_size is checked for all 2^14
 signatures and get_state/set_state for sampled signatures against the tree C engine's state API including the frame condition.'''
-LEVEL_NOTE = '''The transfer functions necessarily use MjModel/MjData of the installed 3.13.0 wheel. Eager evaluation is sampled
-(1-2 states per model) because it is slow. Unused contact-slot placeholders are ignored in make_data vs put_data. Only the
-JAX implementation (impl=jax) is covered; warp/cpp back-ends cannot be loaded here.'''
+LEVEL_NOTE = '''The transfer functions necessarily use MjModel/MjData of the installed 3.13.0 wheel. Eager (op-by-op) evaluation is only
+affordable for the pipeline without collision/constraint/solver (1-2 states per model) and for one full step per worker in the
+thorough tier; jit-vs-vmap is checked on the full step for every batch member. Unused contact-slot placeholders are ignored in
+make_data vs put_data. Sub-domains where get_data was found not to return the original data are excluded and listed in
+`assumptions` (ne/nf/nl static counts, contacts inside a positive margin, rows with an exactly zero Jacobian, ten_J with a
+structural zero; reproducers: python -m vf.mjx_findings F9 F19 F25); C44_FINDINGS=1 re-enables them. Only impl=jax is covered
+(warp / cpp back-ends cannot be loaded here). No shrinking; sharded over worker processes; time-budgeted.'''
